@@ -63,8 +63,33 @@ def s1(prog: Program, chk: Check) -> None:
         kw = {k.arg: k.value for k in c.keywords}
         dk = c.args[0] if c.args else kw.get("dk")
         ok = isinstance(dk, ast.Name) and dk.id == "dk" and "dk" in u.params
+        why = "" if ok else "the time-step distance is not passed through unchanged"
+        if ok:
+            # ... and the name still holds the caller's value: no rebinding on any path
+            rebinds = [x for x in walk_local(u.node)
+                       if isinstance(x, (ast.Assign, ast.AugAssign, ast.AnnAssign, ast.NamedExpr,
+                                         ast.For))
+                       and any(isinstance(y, ast.Name) and y.id == "dk"
+                               and isinstance(y.ctx, ast.Store) for y in ast.walk(x))]
+            def _same(x):
+                # dk = int(dk) and the like keep the value
+                if not isinstance(x, ast.Assign) or len(x.targets) != 1:
+                    return False
+                from oqv.forms import eval_form
+                f = eval_form(x.value, lambda y: Poly.sym("DK") if isinstance(y, ast.Name)
+                              and y.id == "dk" else (
+                                  eval_form(y.args[0], lambda z: Poly.sym("DK")
+                                            if isinstance(z, ast.Name) and z.id == "dk" else None)
+                                  if isinstance(y, ast.Call) and dotted(y.func) == "int"
+                                  and len(y.args) == 1 else None))
+                return f == Poly.sym("DK")
+            rebinds = [x for x in rebinds if not _same(x)]
+            if rebinds:
+                ok = False
+                why = (f"dk is rebound before the call (`{norm(rebinds[0])[:60]}`): this method "
+                       f"asks for a different separation than its sibling does at the same step")
         chk.add("S1", u, f"influence_matrix(dk={norm(dk) if dk is not None else '?'})", ok,
-                "" if ok else "the time-step distance is not passed through unchanged", c)
+                why, c)
         for p, w in want.items():
             got = _canon(prog, u, kw[p]) if p in kw else "<missing>"
             if got.startswith("BATH._"):
